@@ -27,10 +27,10 @@ NoPublish     == [GuardsAll EXCEPT !.publish = FALSE]   \* readers start while t
 
 PairOps == AllCombos
 C(op, k) == [op |-> op, k |-> k]
-TripleOpsQuick == {C("iterate", "list"), C("store", "dict"), C("mutate", "closure"), C("initfail", "prog"), C("encode", "set")}
-TripleOps == TripleOpsQuick \cup {C("iterate", "dict"), C("store", "closure"), C("callfail", "closure"), C("mutate", "list"),
-                                   C("call", "closure"), C("store", "struct")}
-ProgramOps == {C("init", "prog"), C("initfail", "prog"), C("callfail", "closure"), C("mutate", "closure"), C("call", "closure")}
+TripleOpsQuick == {C("iterate", "list"), C("store", "dict"), C("mutate", "closure"), C("initfail", "prog")}
+TripleOps == TripleOpsQuick \cup {C("encode", "set"), C("store", "closure"), C("callfail", "closure"), C("mutate", "list")}
+ProgramOpsQuick == {C("init", "prog"), C("initfail", "prog"), C("callfail", "closure")}
+ProgramOps == ProgramOpsQuick \cup {C("mutate", "closure"), C("call", "closure")}
 
 \* a small set that contains a witness for every guard (negative design checks)
 NegOps == {C("iterate", "list"), C("store", "dict"), C("store", "closure"), C("initfail", "prog"), C("index", "list"), C("mutate", "set")}
